@@ -77,7 +77,8 @@ def run(ctx: Ctx) -> None:
                 "position; all 3^m assignments (m<=3/4) and all refinements of their UNKNOWN entries; bracket variants through the real parser; "
                 "distinct = (tree, transformation, position)")
     ctx.coverage["generated_changed"] = extract.regenerate(["Cfv"])
-    ok = ctx.lean_build(MODULES + ["driver"])
+    ok = ctx.lean_build(MODULES)
+    drv = ctx.lean_build_driver()
     if ok:
         ctx.lean_audit(MODULES)
         if not ctx.quick:
@@ -156,7 +157,7 @@ def run(ctx: Ctx) -> None:
                       {"strings": K1_WITNESS, "is_valid": res}, key=K1_KEY)
     for c in all_cases[:: max(1, len(all_cases) // 6)][:6]:
         ctx.sample({"stream": c["stream"], "tree": T.to_json(c["e"]), "rc": c["rc"], "impl": outcome(c["impl"])})
-    if ok:
+    if drv:
         outs = ctx.driver({"op": "evalRc", "tree": T.to_json(c["e"]), "rc": c["rc"], "hints": c["hints"]} for c in all_cases)
         for c, o in zip(all_cases, outs):
             c["model"] = o
